@@ -27,6 +27,7 @@ PROPS = {
         "tests": [
             T("TestC03Enum", "fleet", 1, 1, enum=True, qshards=4, shards=8, procs=4),
             T("TestC03Loop", "fleet", 600, 64000, shards=16, qshards=4, procs=4),
+            T("TestC03Writer", "kv", 400, 32000, shards=16, qshards=4, procs=4),
         ],
         "known_tests": [T("TestKnownC03", "fleet", 1, 1)],
         "assumptions": [
